@@ -337,7 +337,7 @@ func (e *specEnv) tr(x *SExpr) SVal {
 func (e *specEnv) qualified(pkgName, name string) (SVal, bool) {
 	for path, sp := range e.r.eng.SSAPkgs {
 		_ = path
-		if sp.Pkg.Name() != pkgName {
+		if sp.Pkg.Name() != pkgName && pkgAliases[pkgName] != sp.Pkg.Name() && pkgAliases[pkgName] != path {
 			continue
 		}
 		if o := sp.Pkg.Scope().Lookup(name); o != nil {
@@ -546,6 +546,17 @@ func (e *specEnv) call(x *SExpr) SVal {
 		c, a, b := arg(0), arg(1), arg(2)
 		a, b = e.coerceNil(a, b)
 		return SVal{Term: fmt.Sprintf("(ite %s %s %s)", c.Term, a.Term, b.Term), Sort: a.Sort, Type: a.Type}
+	case "fits":
+		// fits(x, y): the mathematical integer x is representable in the Go type of y
+		a, b := arg(0), arg(1)
+		if b.Type == nil {
+			e.fail("fits: second argument has no Go type")
+		}
+		lo, hi, ok := intRange(b.Type)
+		if !ok {
+			e.fail("fits: %s is not an integer type", shortName(b.Type))
+		}
+		return SVal{Term: fmt.Sprintf("(and (<= %s %s) (<= %s %s))", lo, a.Term, a.Term, hi), Sort: "Bool"}
 	case "isProtoMsg":
 		a := arg(0)
 		return SVal{Term: fmt.Sprintf("(isProtoMsg %s)", a.Term), Sort: "Bool"}
@@ -560,6 +571,14 @@ func (e *specEnv) call(x *SExpr) SVal {
 		dom, _, _, _ := e.r.mapHeaps(m.Type)
 		hd := e.r.heapGet(e.state(), dom)
 		return SVal{Term: fmt.Sprintf("(select (select %s %s) %s)", hd, m.Term, k.Term), Sort: "Bool"}
+	}
+	// fmt.Sprintf of a constant format and integer/string operands, as the engine models it
+	if strings.HasPrefix(name, "sprintf_") {
+		var as []string
+		for i := range x.Args {
+			as = append(as, arg(i).Term)
+		}
+		return SVal{Term: fmt.Sprintf("(%s %s)", name, strings.Join(as, " ")), Sort: "String"}
 	}
 	// type conversion T(x): same term, Go type T (named types over the same SMT sort)
 	if len(x.Args) == 1 {
